@@ -2,19 +2,20 @@ package main
 
 import (
 	"bytes"
-	"golang.org/x/sys/unix"
-	"runtime"
-	"errors"
-	"github.com/polydawn/rio/lib/verifhook"
-	"time"
-	"github.com/polydawn/refmt/misc"
 	"context"
+	"errors"
 	"fmt"
+	"github.com/polydawn/refmt/misc"
+	"github.com/polydawn/rio/lib/verifhook"
+	"golang.org/x/sys/unix"
 	"os"
 	"os/exec"
 	"path/filepath"
+	"runtime"
 	"strings"
 	"sync"
+	"syscall"
+	"time"
 
 	api "github.com/polydawn/go-timeless-api"
 	"github.com/polydawn/go-timeless-api/rio"
@@ -174,8 +175,12 @@ func packenvExec(c *Ctx, op string) {
 	{
 		t := int64(1.2e9)
 		d := func(n string) Entry { return Entry{Name: n, Kind: 'd', Perms: 0755, Uid: 3, Gid: 4, Sec: t} }
-		fl := func(n, b string) Entry { return Entry{Name: n, Kind: 'f', Perms: 0644, Uid: 3, Gid: 4, Sec: t, Content: []byte(b)} }
-		ln := func(n, tg string) Entry { return Entry{Name: n, Kind: 'L', Perms: 0777, Uid: 3, Gid: 4, Sec: t, Link: tg} }
+		fl := func(n, b string) Entry {
+			return Entry{Name: n, Kind: 'f', Perms: 0644, Uid: 3, Gid: 4, Sec: t, Content: []byte(b)}
+		}
+		ln := func(n, tg string) Entry {
+			return Entry{Name: n, Kind: 'L', Perms: 0777, Uid: 3, Gid: 4, Sec: t, Link: tg}
+		}
 		f1 := Fileset{d(""), fl("t", "OLD-TARGET"), ln("n", "t"), d("dd"), fl("dd/c", "old-child"), ln("dlink", "dd"), fl("plain", "p")}
 		f2 := Fileset{d(""), fl("t", "OLD-TARGET"), fl("n", "NEW-BYTES!"), d("dd"), fl("dd/c", "old-child"), d("dlink"), fl("dlink/c", "new-child"), fl("plain", "p")}
 		pth, q := filepath.Join(base, "reused"), filepath.Join(base, "fresh")
@@ -291,7 +296,9 @@ func packenvBigDir(c *Ctx, op string) {
 	}
 	pf := api.MustParseFilesetPackFilter(losslessPackStr)
 	pk := func(dir string) string {
-		id, err, pan := safeCall(func() (api.WareID, error) { return tartrans.Pack(context.Background(), "tar", dir, pf, "", rio.Monitor{}) })
+		id, err, pan := safeCall(func() (api.WareID, error) {
+			return tartrans.Pack(context.Background(), "tar", dir, pf, "", rio.Monitor{})
+		})
 		return resTok(id, err, pan)
 	}
 	ga, gb := pk(a), pk(b)
@@ -491,6 +498,68 @@ func packenvProcfs(c *Ctx, op string) {
 	c.Distinct(op)
 }
 
+// packenvCrossFs: one fileset laid out on a single filesystem, and the same fileset with two of its directories being
+// freshly made tmpfs mounts — where inode numbers repeat from one filesystem to the next — with hard-linked regular files
+// (link count 2) in both: the id is the same. Recipe: "packenv-crossfs".
+func packenvCrossFs(c *Ctx, op string) {
+	c.Begin(op)
+	caseCounter++
+	base := filepath.Join(c.Work, fmt.Sprintf("pxf%d", caseCounter))
+	defer rmrf(base)
+	one, two := filepath.Join(base, "one"), filepath.Join(base, "two")
+	c.EmitR(op, "skip", "skip")
+	var mounts []string
+	defer func() {
+		for _, m := range mounts {
+			syscall.Unmount(m, syscall.MNT_DETACH)
+		}
+	}()
+	build := func(root string, mount bool) bool {
+		for _, d := range []string{"a", "b"} {
+			p := filepath.Join(root, d)
+			os.MkdirAll(p, 0755)
+			if mount {
+				if syscall.Mount("tmpfs", p, "tmpfs", 0, "size=1m") != nil {
+					return false
+				}
+				mounts = append(mounts, p)
+			}
+			body := map[string]string{"a": "first body", "b": "SECOND body, longer"}[d]
+			os.WriteFile(filepath.Join(p, "x"), []byte(body), 0644)
+			os.Link(filepath.Join(p, "x"), filepath.Join(p, "y"))
+			os.WriteFile(filepath.Join(p, "plain"), []byte(d), 0644)
+		}
+		for _, q := range []string{"a/x", "a/plain", "b/x", "b/plain", "a", "b", "."} {
+			os.Chmod(filepath.Join(root, q), map[bool]os.FileMode{true: 0755, false: 0644}[!strings.Contains(q, "/")])
+			os.Chtimes(filepath.Join(root, q), time.Unix(1e9, 0), time.Unix(1e9, 0))
+		}
+		return true
+	}
+	if !build(one, false) || !build(two, true) {
+		c.H("crossfs:skipped")
+		return
+	}
+	var st1, st2 syscall.Stat_t
+	syscall.Lstat(filepath.Join(two, "a", "x"), &st1)
+	syscall.Lstat(filepath.Join(two, "b", "x"), &st2)
+	c.H(fmt.Sprintf("crossfs:same-ino=%v", st1.Ino == st2.Ino && st1.Dev != st2.Dev))
+	for _, fm := range []string{"tar", "zip"} {
+		fn := funcsFor(fm)
+		pack := func(dir string) string {
+			id, err, pan := safeCall(func() (api.WareID, error) {
+				return fn.pack(context.Background(), api.PackType(fm), dir, api.MustParseFilesetPackFilter(losslessPackStr), "", rio.Monitor{})
+			})
+			return resTok(id, err, pan)
+		}
+		a, b := pack(one), pack(two)
+		c.H("crossfs:" + fm + ":" + strings.Fields(a)[0])
+		if a != b {
+			c.PropFail("pack-env", fmt.Sprintf("a fileset with hard-linked files packs (%s) to %s on one filesystem and to %s when two of its directories are separate (tmpfs) filesystems whose inode numbers coincide", fm, a, b), op)
+		}
+	}
+	c.Distinct(op)
+}
+
 // packenvRepackEdit: one process packs the same tree path twice; between the packs a regular file gets other bytes of
 // the same length and its mtime is put back (a build that pins mtimes). The second id differs from the first (C04) and is
 // what the edited tree packs to at a fresh path (C01). Recipe: "packenv-repack-edit <tar|zip>".
@@ -537,7 +606,6 @@ func packenvRepackEdit(c *Ctx, op string) {
 	}
 	c.Distinct(op)
 }
-
 
 // packenvFailThen: a pack that fails partway (the warehouse refuses the i-th write) followed, in the same process and on
 // the same goroutine, by a quiet pack of the same tree: the id must be what it was before the failure.
@@ -739,6 +807,8 @@ func packenvEngine(c *Ctx) {
 				packenvCancel(c, op)
 			} else if strings.HasPrefix(op, "packenv-repack-edit ") {
 				packenvRepackEdit(c, op)
+			} else if strings.HasPrefix(op, "packenv-crossfs") {
+				packenvCrossFs(c, op)
 			} else if strings.HasPrefix(op, "packenv-procfs") {
 				packenvProcfs(c, op)
 			} else if strings.HasPrefix(op, "packenv-unreadable ") {
@@ -758,6 +828,7 @@ func packenvEngine(c *Ctx) {
 	packenvRepackEdit(c, "packenv-repack-edit tar")
 	packenvRepackEdit(c, "packenv-repack-edit zip")
 	packenvProcfs(c, "packenv-procfs")
+	packenvCrossFs(c, "packenv-crossfs")
 	packenvUnreadable(c, "packenv-unreadable tar")
 	packenvUnreadable(c, "packenv-unreadable zip")
 	for _, fm := range []string{"tar", "zip"} {
